@@ -248,8 +248,20 @@ func (batch *Batch) readMessage(
 	offset, lastOffset, timestamp, headers, err = batch.msgs.readMessage(batch.offset, key, val)
 	switch {
 	case err == nil:
-		batch.offset = offset + 1
+		// A batch may start before the requested offset (ReadMessage skips
+		// those messages), the next offset to fetch never moves backwards.
+		if offset >= batch.offset {
+			batch.offset = offset + 1
+		}
 		batch.lastOffset = lastOffset
+		// When this was the last record of its batch the records up to the
+		// batch's last offset were compacted away. Jump past them right away:
+		// the response may be truncated before the end of the next batch, in
+		// which case the end of the response does not tell that this batch was
+		// read entirely.
+		if batch.msgs.lengthRemain == 0 && lastOffset >= batch.offset {
+			batch.offset = lastOffset + 1
+		}
 	case errors.Is(err, errShortRead):
 		// As an "optimization" kafka truncates the returned response after
 		// producing MaxBytes, which could then cause the code to return
